@@ -22,6 +22,7 @@
 --         positions (the soundness error of FRI); no theorem here bounds that probability (see the end of the file).
 import WinterProofs.Lemmas.C05Decision
 import WinterProofs.Lemmas.C05Degree
+import WinterProofs.Lemmas.C05Model
 
 namespace WinterProofs.C05
 open Model.Fri
@@ -223,6 +224,27 @@ example : GoodChallenges 2 (3 : ℚ) [1] (X ^ 5 + 1) := by
   exact ⟨1, le_refl 1, rfl⟩
 
 end algebra
+
+/-- The algebraic lemma on the model: an honest prover (`buildLayersLoop`, i.e. `apply_drp` layer by layer) run on
+    a polynomial of degree above the bound `t·N^L − 1` (and below the domain size: any function on the domain)
+    ends, unless some challenge is a root of the lead polynomial of its layer, with a last layer on which EVERY
+    remainder of at most `t` coefficients fails the verifier's check `eval_horner(rem, offset·g_L^p) = value` at
+    some position `p` of the last domain.  (Whether a query reaches such a position is the probability the
+    property's last sentence is about; that probability is not bounded here.) -/
+theorem over_degree_honest_folding_model {K : Type} [Field K] [DecidableEq K] (root : ℕ → K) (rootOk : ℕ → Bool)
+    (offset : K) (N L t b : ℕ) (hN : 0 < N) (ht : 0 < t) (hb : 0 < b)
+    (hsteps : ∀ j, j < L → C15.StepOK root rootOk N (t * b * N ^ (L - j)))
+    (hprim : IsPrimitiveRoot (root (Nat.log2 (t * b))) (t * b))
+    (hoff : offset ≠ 0) (f : Polynomial K) (hlow : N ^ L * t ≤ f.natDegree)
+    (hhigh : f.natDegree < t * b * N ^ L) (αs : List K) (hαs : L ≤ αs.length)
+    (hgood : FriAlg.GoodChallenges N (offset ^ (N - 1)) (αs.take L) f)
+    (rem : List K) (hrem : rem.length ≤ t) :
+    ∃ ls last, buildLayersLoop (C15.fieldOps root rootOk offset) N L αs
+        (C15.evalsOf offset (root (Nat.log2 (t * b * N ^ L))) f (t * b * N ^ L)) = .ok (ls, last) ∧
+      ∃ p, p < t * b ∧
+        horner (C15.fieldOps root rootOk offset) rem (offset * root (Nat.log2 (t * b)) ^ p) ≠ last.getD p 0 :=
+  over_degree_last_layer_mismatch root rootOk offset N L t b hN ht hb hsteps hprim hoff f hlow hhigh αs hαs
+    hgood rem hrem
 
 /- The full soundness statement of the property — every function that is δ-far from all polynomials of the claimed
    degree is rejected except with probability ε(δ, queries, |F|) over the challenges and the query positions — is a
